@@ -484,6 +484,522 @@ Proof.
   rewrite (wfof_same F w _ (throw_same_data _ _ _ _)) in T. exact T.
 Qed.
 
+(* ------------------------------------------------------------------ invariant: stage indices stay in range *)
+Lemma terminal_stage_ok : forall wf s, terminal s = true -> stage_ok wf s = true.
+Proof. intros wf s H; destruct s; simpl in *; try discriminate; reflexivity. Qed.
+
+Definition keeps (wf : wfacts) (w w' : wrk) : Prop :=
+  w_kind w' = w_kind w /\ (stage_ok wf (w_stage w) = true -> stage_ok wf (w_stage w') = true).
+
+Lemma keeps_settle : forall cc wf e w0 w, w_kind w = w_kind w0 -> keeps wf w0 (fst (settle_exn cc wf e w)).
+Proof.
+  intros cc wf e w0 w Hk. pose proof (settle_spec cc wf e w) as (T & _ & (K & _)).
+  split; [congruence|]. intros _. apply terminal_stage_ok; assumption.
+Qed.
+
+Lemma keeps_finish : forall cc wf w0 w, w_kind w = w_kind w0 -> keeps wf w0 (fst (finish cc wf w)).
+Proof.
+  intros cc wf w0 w Hk. unfold finish. destruct (w_exc w).
+  - apply keeps_settle; assumption.
+  - destruct w; split; simpl in *; auto.
+Qed.
+
+Lemma keeps_start_exit : forall cc wf w0 w, w_kind w = w_kind w0 -> keeps wf w0 (fst (start_exit cc wf w)).
+Proof.
+  intros cc wf w0 w Hk. unfold start_exit. destruct (List.length (wf_ctx wf)) as [|n] eqn:E.
+  - apply keeps_finish. destruct w; simpl in *; assumption.
+  - destruct w; split; simpl in *; auto. intros _. rewrite E. apply Nat.ltb_lt; lia.
+Qed.
+
+Lemma wstep_keeps : forall cc wf d w, keeps wf w (fst (fst (wstepC cc wf d w))).
+Proof.
+  intros cc wf d w. unfold wstepC.
+  destruct (w_stage w) as [ | [|] | | i | | n | [|j] | | | | e0 | ] eqn:Es.
+  - destruct d; destruct w; split; simpl; auto.
+  - destruct d; destruct w; split; simpl; auto.
+  - split; auto.
+  - destruct w; split; simpl; auto. intros _. unfold stage_ok. destruct (wf_ctx wf); reflexivity.
+  - destruct w; split; simpl; auto. intros _.
+    destruct (Nat.ltb (S i) (List.length (wf_ctx wf))) eqn:E; simpl; auto.
+  - destruct w; split; simpl; auto.
+  - destruct (w_rest w) eqn:Er.
+    + pose proof (keeps_start_exit cc wf w w eq_refl) as K.
+      destruct (start_exit cc wf w); simpl in *. exact K.
+    + split; simpl; auto.
+  - pose proof (keeps_finish cc wf w w eq_refl) as K. destruct (finish cc wf w); simpl in *. exact K.
+  - destruct w; simpl in Es; subst; split; simpl in *; auto. intros H. apply Nat.ltb_lt in H. apply Nat.ltb_lt. lia.
+  - split; auto.
+  - split; auto.
+  - split; auto.
+  - split; auto.
+  - split; auto.
+Qed.
+
+Lemma raise_keeps : forall cc wf e w, keeps wf w (fst (raise_at cc wf e w)).
+Proof.
+  intros cc wf e w. unfold raise_at.
+  destruct (w_stage w) as [ | b | | [|j] | | n | [|j] | | | | e0 | ] eqn:Es.
+  - destruct w; split; simpl; auto. intros _; destruct e; reflexivity.
+  - destruct e; try (destruct w; split; simpl; auto; fail).
+    destruct (wf_wait_outside wf); [destruct w; split; simpl; auto | apply keeps_settle; reflexivity].
+  - apply keeps_settle. destruct w; reflexivity.
+  - apply keeps_settle. destruct w; reflexivity.
+  - destruct w; simpl in Es; subst; split; simpl in *; auto. intros H. apply Nat.ltb_lt in H. apply Nat.ltb_lt. lia.
+  - apply keeps_start_exit. destruct w; reflexivity.
+  - apply keeps_start_exit. destruct w; reflexivity.
+  - apply keeps_finish. destruct w; reflexivity.
+  - destruct w; simpl in Es; subst; split; simpl in *; auto. intros H. apply Nat.ltb_lt in H. apply Nat.ltb_lt. lia.
+  - split; auto.
+  - split; auto.
+  - split; auto.
+  - split; auto.
+  - split; auto.
+Qed.
+
+Lemma throw_keeps : forall cc wf e w, keeps wf w (fst (throwC cc wf e w)).
+Proof.
+  intros cc wf e w. unfold throwC.
+  pose proof (skip_spec cc wf (skip_fuel wf) w) as Hs.
+  destruct (skipC cc wf (skip_fuel wf) w) as [w1 r1]. destruct Hs as [((K & _) & _ & Ok) _].
+  pose proof (raise_keeps cc wf e w1) as [K2 Ok2].
+  destruct (raise_at cc wf e w1) as [w2 r2]. simpl in *.
+  split; [congruence | auto].
+Qed.
+
+Definition wok (F : cfg) (w : wrk) : bool := stage_ok (wfof F w) (w_stage w).
+
+Lemma wok_keeps : forall F w w', keeps (wfof F w) w w' -> wok F w = true -> wok F w' = true.
+Proof.
+  unfold wok, wfof; intros F w w' [K Ok] H. rewrite K. auto.
+Qed.
+
+Lemma forallb_upd_nth : forall (f : wrk -> bool) g l i,
+  (forall w, f w = true -> f (g w) = true) -> forallb f l = true -> forallb f (upd_nth i g l) = true.
+Proof.
+  induction l; intros i Hg H; destruct i; simpl in *; auto;
+    apply andb_prop in H; destruct H as [H1 H2]; apply andb_true_intro; auto.
+Qed.
+
+Lemma forallb_map_keep : forall (f : wrk -> bool) g l,
+  (forall w, f w = true -> f (g w) = true) -> forallb f l = true -> forallb f (map g l) = true.
+Proof.
+  induction l; intros Hg H; simpl in *; auto.
+  apply andb_prop in H; destruct H as [H1 H2]; apply andb_true_intro; auto.
+Qed.
+
+Lemma wok_cancel : forall F w, wok F w = true -> wok F (fst (cancel F w)) = true.
+Proof. intros F w. apply wok_keeps. apply throw_keeps. Qed.
+
+Lemma reap_keep_ok : forall F l, forallb (wok F) l = true ->
+  forallb (wok F) (fst (fst (fst (reap F l)))) = true.
+Proof.
+  induction l; intros H; simpl in *; auto.
+  apply andb_prop in H; destruct H as [H1 H2]. specialize (IHl H2).
+  destruct (reap F l) as [[[keep rs] ok] lk]. simpl in IHl.
+  destruct (terminal (w_stage a)).
+  - destruct (w_stage a); simpl; auto; destruct (on_task_exn F _); simpl; auto.
+  - simpl. rewrite H1; auto.
+Qed.
+
+Lemma end_session_ok : forall F st, state_ok F st = true -> state_ok F (end_session F st) = true.
+Proof.
+  unfold state_ok, end_session; intros F st H.
+  destruct (run_fin (c_fin F) (ss st)) as [[s c] w]; simpl. destruct c; [|assumption].
+  apply forallb_map_keep; [apply wok_cancel | assumption].
+Qed.
+
+Lemma nth_error_forallb : forall (f : wrk -> bool) l i w, forallb f l = true -> nth_error l i = Some w -> f w = true.
+Proof.
+  intros f l i w H E. rewrite forallb_forall in H. apply H. eapply nth_error_In; eauto.
+Qed.
+
+Lemma step_state_ok : forall F st ev, state_ok F st = true -> state_ok F (fst (step F st ev)) = true.
+Proof.
+  intros F st ev H. unfold step.
+  destruct (negb (alive (ss st))).
+  - destruct ev; try assumption.
+    destruct (nth_error (ws st) i) as [w|] eqn:E; [|assumption].
+    pose proof (wstep_keeps (c_cancel_codes F) (wfof F w) false w) as K.
+    unfold wstep. destruct (wstepC _ _ false w) as [[w' t] r]. simpl in *.
+    unfold state_ok in *; simpl. 
+    pose proof (nth_error_forallb _ _ _ _ H E) as Hw.
+    pose proof (wok_keeps F w w' K Hw) as Hw'.
+    clear - H Hw' E. revert i E. induction (ws st); intros i E; destruct i; simpl in *; try discriminate; auto.
+    + apply andb_prop in H; destruct H. apply andb_true_intro; auto.
+    + apply andb_prop in H; destruct H. apply andb_true_intro; split; eauto.
+  - destruct ev; try assumption; try (apply end_session_ok; assumption).
+    + (* Pasv *) destruct (lst (ss st)); assumption.
+    + (* LStep *) destruct (lst (ss st)); assumption.
+    + (* DataArrives *) destruct (lst (ss st)) as [| | |[] p]; try assumption.
+      destruct (data (ss st)); try assumption. unfold state_ok in *; simpl.
+      apply forallb_map_keep; [|assumption]. intros w Hw. unfold wake, wok, wfof in *.
+      destruct w as [k s x l m r]; destruct s; simpl in *; auto.
+    + (* Spawn *) destruct (lst (ss st)); try assumption. unfold state_ok in *; simpl.
+      rewrite forallb_app. rewrite H. reflexivity.
+    + (* WStep *)
+      destruct (nth_error (ws st) i) as [w|] eqn:E; [|assumption].
+      pose proof (wstep_keeps (c_cancel_codes F) (wfof F w) (data (ss st)) w) as K.
+      unfold wstep. destruct (wstepC _ _ _ w) as [[w' t] r]. simpl in *.
+      unfold state_ok in *; simpl.
+      pose proof (nth_error_forallb _ _ _ _ H E) as Hw.
+      pose proof (wok_keeps F w w' K Hw) as Hw'.
+      clear - H Hw' E. revert i E. induction (ws st); intros i E; destruct i; simpl in *; try discriminate; auto.
+      * apply andb_prop in H; destruct H. apply andb_true_intro; auto.
+      * apply andb_prop in H; destruct H. apply andb_true_intro; split; eauto.
+    + (* WThrow *)
+      destruct (nth_error (ws st) i) as [w|] eqn:E; [|assumption].
+      pose proof (throw_keeps (c_cancel_codes F) (wfof F w) e w) as K.
+      unfold throw. destruct (throwC _ _ e w) as [w' r]. simpl in *.
+      unfold state_ok in *; simpl.
+      pose proof (nth_error_forallb _ _ _ _ H E) as Hw.
+      pose proof (wok_keeps F w w' K Hw) as Hw'.
+      clear - H Hw' E. revert i E. induction (ws st); intros i E; destruct i; simpl in *; try discriminate; auto.
+      * apply andb_prop in H; destruct H. apply andb_true_intro; auto.
+      * apply andb_prop in H; destruct H. apply andb_true_intro; split; eauto.
+    + (* WaitTimeout *)
+      destruct (nth_error (ws st) i) as [w|] eqn:E; [|assumption].
+      destruct (w_stage w) as [ | [|] | | | | | | | | | | ]; try assumption.
+      unfold state_ok in *; simpl. apply forallb_upd_nth; [|assumption].
+      intros w0 _. destruct w0; reflexivity.
+    + (* Abor *)
+      destruct (match c_abor F with AbTruthy => _ | AbNotDone => _ | AbUnknown => _ end); [|assumption].
+      unfold state_ok in *; simpl. apply forallb_map_keep; [apply wok_cancel | assumption].
+    + (* Reap *)
+      pose proof (reap_keep_ok F (ws st) H) as R.
+      destruct (reap F (ws st)) as [[[keep rs] ok] lk]. simpl in R.
+      destruct ok; simpl; [exact R|]. apply end_session_ok. exact R.
+Qed.
+
+Definition reachable (F : cfg) (st : state) : Prop :=
+  exists pool_cfg evs, st = fst (run F (init pool_cfg) evs).
+
+Lemma run_state_ok : forall F evs st, state_ok F st = true -> state_ok F (fst (run F st evs)) = true.
+Proof.
+  induction evs; intros st H; simpl; [assumption|].
+  pose proof (step_state_ok F st a H) as H1. destruct (step F st a) as [st1 r1]. simpl in H1.
+  specialize (IHevs st1 H1). destruct (run F st1 evs); simpl in *; assumption.
+Qed.
+
+Lemma reachable_ok : forall F st, reachable F st -> state_ok F st = true.
+Proof. intros F st (p & evs & ->). apply run_state_ok. reflexivity. Qed.
+
+(* ------------------------------------------------------------------ C12: every way of ending *)
+Lemma ends_step : forall F st ev, ends ev = true -> alive (ss st) = true ->
+  fst (step F st ev) = end_session F st.
+Proof. intros F st ev He Ha. unfold step. rewrite Ha. destruct ev; simpl in *; try discriminate; reflexivity. Qed.
+
+Theorem end_releases_all_reachable : forall F st ev,
+  sound12 F = true -> reachable F st -> alive (ss st) = true -> hole_free F st = true -> ends ev = true ->
+  ledger_empty (ledger F (unwind F (fst (step F st ev)))) = true.
+Proof.
+  intros F st ev Hs Hr Ha Hh He. rewrite (ends_step F st ev He Ha).
+  apply end_releases_all; auto. apply reachable_ok; assumption.
+Qed.
+
+Lemma reap_spec : forall F (P : wrk -> Prop) l, Forall P l ->
+  Forall P (fst (fst (fst (reap F l))))
+  /\ (Forall (fun w => w_leak w = false) l -> snd (reap F l) = false).
+Proof.
+  induction 1 as [|w l Hw Hl [I1 I2]]; simpl; [split; auto|].
+  destruct (reap F l) as [[[keep rs] ok] lk]. simpl in *.
+  destruct (terminal (w_stage w)) eqn:T.
+  - assert (G : Forall P keep /\ (Forall (fun w => w_leak w = false) (w :: l) -> lk || w_leak w = false)).
+    { split; [assumption|]. intros HF. inversion HF; subst. rewrite (I2 H2). simpl. assumption. }
+    destruct (w_stage w); simpl; try exact G; destruct (on_task_exn F _); simpl; exact G.
+  - simpl. split; [constructor; assumption|]. intros HF. inversion HF; subst. auto.
+Qed.
+
+(* the session ends because a reaped task raised (F2: a cancelled worker; a socket timeout; ...) *)
+Theorem reap_end_releases : forall F st,
+  sound12 F = true -> reachable F st -> alive (ss st) = true -> hole_free F st = true ->
+  alive (ss (fst (step F st Reap))) = false ->
+  ledger_empty (ledger F (unwind F (fst (step F st Reap)))) = true.
+Proof.
+  intros F st Hs Hr Ha Hh Hd. pose proof (reachable_ok F st Hr) as Hk.
+  unfold step in *. rewrite Ha in *. simpl in *.
+  destruct (hole_free_inv F st Hh) as [Hsf Hw].
+  pose proof (reap_spec F _ _ Hw) as [K1 K2].
+  assert (Hlk : snd (reap F (ws st)) = false).
+  { apply K2. eapply Forall_impl; [|exact Hw]. intros a [A _]; exact A. }
+  pose proof (reap_keep_ok F (ws st) Hk) as Kok.
+  destruct (reap F (ws st)) as [[[keep rs] ok] lk]. simpl in *. subst lk.
+  destruct ok; simpl in *.
+  - destruct (ss st); simpl in *; congruence.
+  - apply end_releases_all; auto.
+    unfold hole_free; simpl. apply andb_true_intro; split.
+    + unfold sess_hole_free, set_leaked, upd_sess in *. destruct (ss st); simpl in *. rewrite orb_false_r. assumption.
+    + apply forallb_forall. intros w Hin. rewrite Forall_forall in K1. destruct (K1 w Hin) as [A B].
+      rewrite A, B; reflexivity.
+Qed.
+
+Theorem server_close_completes : forall F srv,
+  sound12 F = true ->
+  Forall (fun st => reachable F st /\ alive (ss st) = true /\ hole_free F st = true) (sessions srv) ->
+  server_ledger_empty F (server_close F srv) = true.
+Proof.
+  intros F srv Hs Hall. unfold server_ledger_empty, server_close; simpl.
+  apply forallb_forall. intros x Hin. apply in_map_iff in Hin. destruct Hin as (st & <- & Hin).
+  rewrite Forall_forall in Hall. destruct (Hall st Hin) as (Hr & Ha & Hh).
+  apply end_releases_all_reachable; auto.
+Qed.
+
+(* ------------------------------------------------------------------ C14: ABOR *)
+Lemma set_leaked_false : forall s, set_leaked s false = s.
+Proof. destruct s; unfold set_leaked, upd_sess; simpl; rewrite orb_false_r; reflexivity. Qed.
+
+Lemma codes_eqb_inv : forall l, codes_eqb l = true -> l = [426%Z; 226%Z].
+Proof.
+  intros l H. destruct l as [|a [|b [|c l]]]; simpl in H; try discriminate.
+  apply andb_prop in H; destruct H as [A B]. apply Z.eqb_eq in A, B. subst; reflexivity.
+Qed.
+
+Lemma sound14_inv : forall F, sound14 F = true ->
+  workers_ok F = true /\ c_cancel_codes F = Some [426%Z; 226%Z] /\ c_abor F <> AbUnknown.
+Proof.
+  unfold sound14; intros F H. apply andb_prop in H; destruct H as [H H3].
+  apply andb_prop in H; destruct H as [H1 H2]. split; [assumption|]. split.
+  - unfold cancel_codes_ok in H2. destruct (c_cancel_codes F) as [l|]; try discriminate.
+    rewrite (codes_eqb_inv l H2). reflexivity.
+  - intros E; rewrite E in H3; discriminate.
+Qed.
+
+Lemma wfacts_ok_inv : forall wf, wfacts_ok wf = true ->
+  ctx_shape_ok (wf_ctx wf) = true /\ wf_detach_first wf = true /\ wf_has_worker wf = true /\ wf_reply_after wf = true.
+Proof.
+  unfold wfacts_ok; intros wf H.
+  apply andb_prop in H; destruct H as [H H4].
+  apply andb_prop in H; destruct H as [H H3].
+  apply andb_prop in H; destruct H as [H1 H2]. auto.
+Qed.
+
+Lemma workers_ok_wf : forall F w, workers_ok F = true -> wfacts_ok (wfof F w) = true.
+Proof.
+  unfold workers_ok; intros F w H.
+  apply andb_prop in H; destruct H as [H H4]. apply andb_prop in H; destruct H as [H H3].
+  apply andb_prop in H; destruct H as [H1 H2]. unfold wfof, c_w. destruct (w_kind w); assumption.
+Qed.
+
+(* the property, for one ABOR: answered (426,226 | 226); the session goes on exactly as an idle one
+   (same session state, no worker left); every worker has ended holding neither the data stream
+   nor a file; what each had moved is unchanged (hence still a prefix of its payload) *)
+Definition abor_ok (F : cfg) (st : state) : Prop :=
+  (snd (abor_run F st) = [426%Z; 226%Z] \/ snd (abor_run F st) = [226%Z])
+  /\ fst (abor_run F st) = {| ss := ss st; ws := [] |}
+  /\ Forall (good_w F) (ws (unwind F (fst (step F st Abor))))
+  /\ Forall2 same_data (ws st) (ws (unwind F (fst (step F st Abor)))).
+
+Theorem abor_idle : forall F st, c_abor F <> AbUnknown -> alive (ss st) = true -> ws st = [] ->
+  step F st Abor = (st, [226%Z]).
+Proof.
+  intros F st Hu Ha Hw. unfold step. rewrite Ha, Hw; simpl. destruct (c_abor F); try congruence; reflexivity.
+Qed.
+
+Lemma abor_idle_ok : forall F st, c_abor F <> AbUnknown -> alive (ss st) = true -> ws st = [] -> abor_ok F st.
+Proof.
+  intros F st Hu Ha Hw. unfold abor_ok, abor_run. rewrite (abor_idle F st Hu Ha Hw).
+  unfold unwind, unwind_replies. rewrite Hw. simpl. unfold step. simpl. rewrite Ha. simpl.
+  rewrite set_leaked_false. rewrite Hw. simpl. repeat split; auto.
+Qed.
+
+Lemma after_snd : forall cc wf e w,
+  snd (after cc wf e w) = snd (throwC cc wf e w) ++ snd (wrunC cc wf (unwind_boundC wf) (fst (throwC cc wf e w))).
+Proof.
+  intros; unfold after. destruct (throwC cc wf e w) as [w1 r1]; simpl.
+  destruct (wrunC cc wf (unwind_boundC wf) w1); reflexivity.
+Qed.
+
+Lemma abor_step_busy : forall F st w, c_abor F <> AbUnknown -> alive (ss st) = true -> ws st = [w] ->
+  terminal (w_stage w) = false ->
+  step F st Abor = ({| ss := ss st; ws := [fst (cancel F w)] |}, snd (cancel F w) ++ []).
+Proof.
+  intros F st w Hu Ha Hw Ht. unfold step. rewrite Ha, Hw; simpl. rewrite Ht; simpl.
+  destruct (c_abor F); try congruence; reflexivity.
+Qed.
+
+(* ABOR with one unfinished worker: cancel, unwind, reap *)
+Local Opaque reap.
+Lemma abor_run_single : forall F st w, c_abor F <> AbUnknown -> alive (ss st) = true -> ws st = [w] ->
+  terminal (w_stage w) = false ->
+  abor_run F st =
+  (let '(keep, rs, ok, lk) := reap F [ended_w F w] in
+   let st' := {| ss := set_leaked (ss st) lk; ws := keep |} in
+   (if ok then st' else end_session F st',
+    snd (after (c_cancel_codes F) (wfof F w) ECancel w) ++ rs))
+  /\ ws (unwind F (fst (step F st Abor))) = [ended_w F w].
+Proof.
+  intros F st w Hu Ha Hw Ht. unfold abor_run. rewrite (abor_step_busy F st w Hu Ha Hw Ht).
+  unfold unwind, unwind_replies. simpl. fold (ended_w F w).
+  split; [|reflexivity].
+  unfold step. simpl. rewrite Ha. simpl.
+  destruct (reap F [ended_w F w]) as [[[keep rs] ok] lk] eqn:E.
+  assert (Hr : (snd (cancel F w) ++ []) ++ (snd (wrun F (unwind_bound F (fst (cancel F w))) (fst (cancel F w))) ++ []) ++ rs
+               = snd (after (c_cancel_codes F) (wfof F w) ECancel w) ++ rs).
+  { rewrite !app_nil_r. rewrite after_snd. unfold cancel, throw, wrun, unwind_bound.
+    rewrite (wfof_same F w _ (throw_same_data _ _ _ _)). rewrite app_assoc. reflexivity. }
+  destruct ok; rewrite Hr; reflexivity.
+Qed.
+Local Transparent reap.
+
+Lemma skip_park : forall cc wf n w, parks wf (w_stage w) = true -> skipC cc wf (S n) w = (w, []).
+Proof. intros cc wf n w H; simpl. rewrite H. rewrite orb_true_r. reflexivity. Qed.
+
+Lemma skip_fuel_S : forall wf, exists n, skip_fuel wf = S n.
+Proof. intros wf; unfold skip_fuel. exists (2 * List.length (wf_ctx wf) + 3)%nat. lia. Qed.
+
+(* where skipping can lead: it never goes back before the body *)
+Lemma skip_stage : forall cc wf fuel w,
+  fst (skipC cc wf fuel w) = w
+  \/ in_body (w_stage (fst (skipC cc wf fuel w))) = true
+  \/ terminal (w_stage (fst (skipC cc wf fuel w))) = true.
+Proof.
+  induction fuel; intros w; simpl; [auto|].
+  destruct (terminal (w_stage w) || parks wf (w_stage w)) eqn:E; [auto|].
+  apply orb_false_iff in E; destruct E as [Et Ep].
+  assert (Hn : in_body (w_stage (fst (fst (wstepC cc wf false w)))) = true
+               \/ terminal (w_stage (fst (fst (wstepC cc wf false w)))) = true).
+  { destruct w as [k st x l m r]; destruct st; simpl in Et, Ep; try discriminate; unfold wstepC; simpl.
+    - left; destruct (wf_ctx wf); reflexivity.
+    - left; destruct (Nat.ltb (S i) (List.length (wf_ctx wf))); reflexivity.
+    - destruct i; [|left; reflexivity]. right. unfold finish; simpl.
+      destruct x as [e|]; [|reflexivity].
+      pose proof (settle_terminal cc wf e {| w_kind := k; w_stage := ExitingCtx 0; w_exc := Some e; w_leak := l; w_moved := m; w_rest := r |}) as T.
+      destruct (settle_exn cc wf e _); simpl in *; exact T. }
+  destruct (wstepC cc wf false w) as [[w1 t1] r1]. simpl in Hn.
+  specialize (IHfuel w1). destruct (skipC cc wf fuel w1) as [w2 r2]. simpl in *.
+  destruct IHfuel as [-> | H]; auto.
+Qed.
+
+Lemma parked_early : forall F w, (parked_stage F w = Spawned \/ exists b, parked_stage F w = WaitingData b) ->
+  parked_stage F w = w_stage w /\ fst (skipC (c_cancel_codes F) (wfof F w) (skip_fuel (wfof F w)) w) = w.
+Proof.
+  intros F w H. unfold parked_stage in *.
+  destruct (skip_stage (c_cancel_codes F) (wfof F w) (skip_fuel (wfof F w)) w) as [E | [E | E]].
+  - rewrite E. auto.
+  - destruct H as [H | [b H]]; rewrite H in E; discriminate.
+  - destruct H as [H | [b H]]; rewrite H in E; discriminate.
+Qed.
+
+Lemma throw_at_park : forall cc wf e w, parks wf (w_stage w) = true ->
+  throwC cc wf e w = (fst (raise_at cc wf e w), snd (raise_at cc wf e w)).
+Proof.
+  intros cc wf e w H. unfold throwC. destruct (skip_fuel_S wf) as [n ->].
+  rewrite skip_park by assumption. destruct (raise_at cc wf e w); reflexivity.
+Qed.
+
+Lemma ended_terminal_same : forall F w1, terminal (w_stage w1) = true ->
+  fst (wrun F (unwind_bound F w1) w1) = w1 /\ snd (wrun F (unwind_bound F w1) w1) = [].
+Proof. intros F w1 T. unfold wrun. rewrite wrun_terminal by assumption. auto. Qed.
+
+(* MAIN (C14): ABOR with at most one transfer worker, at any point that is not one of the holes *)
+Theorem abor_any_moment_partial : forall F st,
+  sound14 F = true -> state_ok F st = true -> alive (ss st) = true ->
+  (List.length (ws st) <= 1)%nat -> forallb (abor_safe F) (ws st) = true ->
+  abor_ok F st.
+Proof.
+  intros F st Hs Hk Ha Hlen Hsafe. destruct (sound14_inv F Hs) as (Hwk & Hcc & Hu).
+  destruct (ws st) as [|w [|w' l]] eqn:Hw; [apply abor_idle_ok; assumption| |simpl in Hlen; lia].
+  simpl in Hsafe. rewrite andb_true_r in Hsafe.
+  unfold state_ok in Hk. rewrite Hw in Hk. simpl in Hk. rewrite andb_true_r in Hk.
+  unfold abor_safe in Hsafe. apply andb_prop in Hsafe. destruct Hsafe as [Hl Hsafe].
+  apply negb_true_iff in Hl.
+  pose proof (workers_ok_wf F w Hwk) as Hwf. destruct (wfacts_ok_inv _ Hwf) as (_ & _ & Hhw & _).
+  destruct (terminal (w_stage w)) eqn:Ht.
+  - (* finished, not reaped: only safe when abor() tests `not done` *)
+    destruct (c_abor F) eqn:Eab; try discriminate.
+    assert (Hst : w_stage w = Replied \/ w_stage w = Refused \/ w_stage w = Aborted)
+      by (destruct (w_stage w); try discriminate; auto).
+    destruct (ended_terminal_same F w Ht) as [E1 E2].
+    assert (S1 : step F st Abor = (st, [226%Z])).
+    { unfold step. rewrite Ha, Hw, Eab. cbn [negb existsb]. rewrite Ht. reflexivity. }
+    assert (S2 : unwind F st = st).
+    { unfold unwind. rewrite Hw. cbn [map]. rewrite E1. destruct st; simpl in *; subst; reflexivity. }
+    assert (S3 : unwind_replies F st = []).
+    { unfold unwind_replies. rewrite Hw. cbn [flat_map]. rewrite E2. reflexivity. }
+    assert (S4 : step F st Reap = ({| ss := ss st; ws := [] |}, [])).
+    { unfold step. rewrite Ha, Hw. cbn [negb reap]. rewrite Ht, Hl.
+      destruct Hst as [-> | [-> | ->]]; cbn; rewrite set_leaked_false; reflexivity. }
+    unfold abor_ok, abor_run. rewrite S1. cbn [fst snd]. rewrite S2, S3, S4. cbn [fst snd app].
+    rewrite Hw. repeat split; auto.
+    + constructor; [|constructor]. unfold good_w. destruct (terminal_holds (wfof F w) w Ht) as [A B].
+      rewrite A, B, Hl. auto.
+    + constructor; [apply same_data_refl | constructor].
+  - destruct (abor_run_single F st w Hu Ha Hw Ht) as [Erun Ews].
+    unfold abor_ok. rewrite Ews, Erun, Hw. clear Erun Ews.
+    destruct (parked_stage F w) as [ | b | | i | | n | i | | | | e0 | ] eqn:Ep; try discriminate Hsafe.
+    + (* Spawned: never ran; the dispatcher must turn the cancelled task into 426, 226 *)
+      destruct (parked_early F w (or_introl Ep)) as [Est _]. rewrite Ep in Est. symmetry in Est.
+      assert (Hpk : parks (wfof F w) (w_stage w) = true) by (rewrite Est; reflexivity).
+      unfold cancelled_task_ok in Hsafe.
+      destruct (on_task_exn F ECancel) as [rr|] eqn:Eo; try discriminate.
+      assert (Err : rr = [426%Z; 226%Z]).
+      { apply codes_eqb_inv; assumption. }
+      subst rr.
+      assert (Een : ended_w F w = set_stage w Cancelled /\ snd (after (c_cancel_codes F) (wfof F w) ECancel w) = []).
+      { rewrite ended_w_after. unfold after. rewrite throw_at_park by assumption.
+        unfold raise_at. rewrite Est. simpl. rewrite wrun_terminal by reflexivity. simpl. auto. }
+      destruct Een as [-> ->]. simpl. rewrite Eo. simpl. rewrite Hl. rewrite set_leaked_false.
+      repeat split; auto.
+      * constructor; [|constructor]. unfold good_w. destruct w; simpl in *. rewrite Hl. auto.
+      * constructor; [destruct w; unfold same_data; simpl; auto | constructor].
+    + (* WaitingData *)
+      destruct (parked_early F w (or_intror (ex_intro _ b Ep))) as [Est _]. rewrite Ep in Est. symmetry in Est.
+      assert (Hpk : parks (wfof F w) (w_stage w) = true) by (rewrite Est; reflexivity).
+      destruct (wf_wait_outside (c_w F (w_kind w))) eqn:Ewo; simpl in Hsafe.
+      * unfold cancelled_task_ok in Hsafe.
+        destruct (on_task_exn F ECancel) as [rr|] eqn:Eo; try discriminate.
+        assert (Err : rr = [426%Z; 226%Z]).
+        { apply codes_eqb_inv; assumption. }
+        subst rr.
+        assert (Een : ended_w F w = set_stage w Cancelled /\ snd (after (c_cancel_codes F) (wfof F w) ECancel w) = []).
+        { rewrite ended_w_after. unfold after. rewrite throw_at_park by assumption.
+          unfold raise_at. rewrite Est. change (wf_wait_outside (wfof F w) = true) in Ewo. rewrite Ewo. simpl.
+          rewrite wrun_terminal by reflexivity. simpl. auto. }
+        destruct Een as [-> ->]. simpl. rewrite Eo. simpl. rewrite Hl. rewrite set_leaked_false.
+        repeat split; auto.
+        -- constructor; [|constructor]. unfold good_w. destruct w; simpl in *. rewrite Hl. auto.
+        -- constructor; [destruct w; unfold same_data; simpl; auto | constructor].
+      * assert (Een : ended_w F w = set_stage (set_exc w None false) Aborted
+                      /\ snd (after (c_cancel_codes F) (wfof F w) ECancel w) = [426%Z; 226%Z]).
+        { rewrite ended_w_after. unfold after. rewrite throw_at_park by assumption.
+          unfold raise_at. rewrite Est. change (wf_wait_outside (wfof F w) = false) in Ewo. rewrite Ewo. rewrite settle_eq.
+          unfold settle_stage, settle_codes. rewrite Hhw, Hcc. simpl.
+          rewrite wrun_terminal by reflexivity. simpl. auto. }
+        destruct Een as [-> ->]. simpl. rewrite Hl. simpl. rewrite set_leaked_false.
+        repeat split; auto.
+        -- constructor; [|constructor]. unfold good_w. destruct w; simpl in *. rewrite Hl. auto.
+        -- constructor; [destruct w; unfold same_data; simpl; auto | constructor].
+    + (* Detached *) apply negb_true_iff in Hsafe.
+      unfold hole, holeC in Hsafe. unfold parked_stage in Ep. rewrite Ep in Hsafe. discriminate.
+    + (* EnteringCtx *) apply negb_true_iff in Hsafe.
+      destruct (after_spec (c_cancel_codes F) (wfof F w) ECancel w Hk Hl Hsafe) as (T & L & S & B).
+      unfold parkedC in B. unfold parked_stage in Ep. rewrite Ep in B. destruct (B eq_refl) as [Bs Bc].
+      rewrite <- ended_w_after in T, L, S, Bs. rewrite Bc. cbn [reap]. rewrite Bs.
+      unfold settle_stage, settle_codes. rewrite Hhw, Hcc. cbn. rewrite L.
+      rewrite set_leaked_false. repeat split; auto.
+      constructor; [|constructor]. apply (ended_w_good F w Hk Hl Hsafe).
+    + (* Seeking *) apply negb_true_iff in Hsafe.
+      destruct (after_spec (c_cancel_codes F) (wfof F w) ECancel w Hk Hl Hsafe) as (T & L & S & B).
+      unfold parkedC in B. unfold parked_stage in Ep. rewrite Ep in B. destruct (B eq_refl) as [Bs Bc].
+      rewrite <- ended_w_after in T, L, S, Bs. rewrite Bc. cbn [reap]. rewrite Bs.
+      unfold settle_stage, settle_codes. rewrite Hhw, Hcc. cbn. rewrite L.
+      rewrite set_leaked_false. repeat split; auto.
+      constructor; [|constructor]. apply (ended_w_good F w Hk Hl Hsafe).
+    + (* Loop *) apply negb_true_iff in Hsafe.
+      destruct (after_spec (c_cancel_codes F) (wfof F w) ECancel w Hk Hl Hsafe) as (T & L & S & B).
+      unfold parkedC in B. unfold parked_stage in Ep. rewrite Ep in B. destruct (B eq_refl) as [Bs Bc].
+      rewrite <- ended_w_after in T, L, S, Bs. rewrite Bc. cbn [reap]. rewrite Bs.
+      unfold settle_stage, settle_codes. rewrite Hhw, Hcc. cbn. rewrite L.
+      rewrite set_leaked_false. repeat split; auto.
+      constructor; [|constructor]. apply (ended_w_good F w Hk Hl Hsafe).
+    + (* ExitingCtx *) apply negb_true_iff in Hsafe.
+      destruct (after_spec (c_cancel_codes F) (wfof F w) ECancel w Hk Hl Hsafe) as (T & L & S & B).
+      unfold parkedC in B. unfold parked_stage in Ep. rewrite Ep in B. destruct (B eq_refl) as [Bs Bc].
+      rewrite <- ended_w_after in T, L, S, Bs. rewrite Bc. cbn [reap]. rewrite Bs.
+      unfold settle_stage, settle_codes. rewrite Hhw, Hcc. cbn. rewrite L.
+      rewrite set_leaked_false. repeat split; auto.
+      constructor; [|constructor]. apply (ended_w_good F w Hk Hl Hsafe).
+Qed.
+
 Ltac dmatch :=
   match goal with
   | |- context [match ?x with _ => _ end] => is_var x; destruct x
